@@ -3,7 +3,7 @@ from props import matcher_common as mc
 
 NAMESPACE = 'C10'
 LEAN_TARGETS = ['MxV.Props.C10', 'MxV.Props.Slotted', 'MxV.Tables.D_witnesses_C10']
-THEOREMS = ['C10_tame', 'C10_then_supply', 'Slotted.C10_slotted', 'fails_on_wild_models']
+THEOREMS = ['C10_tame', 'C10_then_supply', 'attr_failed_changes_nothing', 'attr_then_supply', 'Slotted.C10_slotted', 'fails_on_wild_models']
 TRUSTED_BASE = ['Lean 4.33.0 kernel', 'axioms: propext, Quot.sound, Classical.choice only (audited per theorem)',
                 'translator extract/*.py (templates regenerated every run)',
                 'correspondence harness (real library vs Mfull on all 94 types, vs Msimple on the 68 Tame types)']
